@@ -160,6 +160,40 @@ theorem cons_listPushAt (next : Nat) (xs : List Tok) (i : Int) (p : Nat) :
       have hle : j.toNat ≤ xs.length := by omega
       exact ids_perm ((perm_insertIdx _ _ hle).trans (perm_append_singleton _ _).symm)
 
+/-- Array_Push_At / List_Push_At with a Box argument: the pointee constructed for the call ends up in the container, or —
+    when the index is refused — is deleted again by the caller -/
+theorem cons_arrayPushAtBox (next : Nat) (xs : List Tok) (i : Int) (p : Nat) :
+    let r := withPointee next p (fun t => arrayPushAtTok xs i t)
+    Conserves xs r.val r.issued r.retired ∧ FreshFrom next r.issued := by
+  simp only [withPointee, arrayPushAtTok]
+  generalize (if i < 0 then (xs.length : Int) + 1 + i else i) = j
+  by_cases hb : j < 0 ∨ j > (xs.length : Int)
+  · simp [hb, Conserves, FreshFrom]
+  · simp only [hb, if_false]
+    refine ⟨?_, rfl⟩
+    simp only [Conserves, List.append_nil]
+    have hle : j.toNat ≤ xs.length := by omega
+    exact ids_perm ((perm_insertIdx _ _ hle).trans (perm_append_singleton _ _).symm)
+
+theorem cons_listPushAtBox (next : Nat) (xs : List Tok) (i : Int) (p : Nat) :
+    let r := withPointee next p (fun t => listPushAtTok xs i t)
+    Conserves xs r.val r.issued r.retired ∧ FreshFrom next r.issued := by
+  simp only [withPointee, listPushAtTok]
+  by_cases hi : i = 0
+  · simp only [hi, if_true]
+    refine ⟨?_, rfl⟩
+    simp only [Conserves, List.append_nil]
+    exact ids_perm (perm_append_singleton _ _).symm
+  · simp only [hi, if_false]
+    generalize (if i < 0 then (xs.length : Int) + i else i) = j
+    by_cases hb : j < 0 ∨ j ≥ (xs.length : Int)
+    · simp [hb, Conserves, FreshFrom]
+    · simp only [hb, if_false]
+      refine ⟨?_, rfl⟩
+      simp only [Conserves, List.append_nil]
+      have hle : j.toNat ≤ xs.length := by omega
+      exact ids_perm ((perm_insertIdx _ _ hle).trans (perm_append_singleton _ _).symm)
+
 theorem cons_seqPop (xs : List Tok) :
     let r := seqPop xs
     Conserves xs r.val r.issued r.retired ∧ r.issued = [] := by
